@@ -17,6 +17,8 @@ import operator
 import time
 from functools import reduce
 
+from vf.engine import paths as _paths
+
 KINDS = ["leaf", "ifc", "ifnc", "ifd", "nested"]
 BV_OPS = {"__add__": operator.add, "__sub__": operator.sub, "__mul__": operator.mul, "__xor__": operator.xor, "__or__": operator.or_, "__and__": operator.and_}
 BIN_ONLY = {"__floordiv__": operator.floordiv, "__lshift__": operator.lshift, "LShR": None, "__rshift__": operator.rshift, "SGT": None, "ULE": None, "__eq__": operator.eq,
@@ -80,6 +82,7 @@ def ob_step(op, amax=3, tier="quick", budget_s=150, fn="excavate_ite"):
     import claripy
     import z3
     t0 = time.time()
+    budget_s = _paths.scaled(budget_s)      # ledger obligations get more time: see paths.BUDGET_SCALE
     B = claripy.backends.z3
     n = 0
     failures, samples = [], []
@@ -87,7 +90,7 @@ def ob_step(op, amax=3, tier="quick", budget_s=150, fn="excavate_ite"):
     for ar in _arities(op, amax):
         for combo in itertools.product(KINDS, repeat=ar):
             if time.time() - t0 > budget_s:
-                return {"status": "partial", "paths": n, "vcs": n, "reason": f"time budget {budget_s} s exhausted", "failures": [], "samples": samples}
+                return {"status": "partial", "paths": n, "vcs": n, "reason": f"time budget {budget_s:g} s exhausted", "failures": [], "samples": samples}
             e = _build(op, combo)
             try:
                 r = getattr(claripy, fn)(e)
@@ -99,7 +102,7 @@ def ob_step(op, amax=3, tier="quick", budget_s=150, fn="excavate_ite"):
             if r.op == "If" and e.op != "If":
                 lifted += 1
             s = z3.Solver(ctx=B._context)
-            s.set("timeout", 20000)
+            s.set("timeout", int(_paths.scaled(20000)))
             ze, zr = B.convert(e), B.convert(r)
             s.add(ze != zr)
             res = s.check()
@@ -146,6 +149,7 @@ def ob_burrow(op, amax=3, tier="quick", budget_s=150):
     import claripy
     import z3
     t0 = time.time()
+    budget_s = _paths.scaled(budget_s)      # ledger obligations get more time: see paths.BUDGET_SCALE
     B = claripy.backends.z3
     w = 4
     n, burrowed = 0, 0
@@ -210,7 +214,7 @@ def ob_burrow(op, amax=3, tier="quick", budget_s=150):
                 if r.op != "If":
                     burrowed += 1
                 s = z3.Solver(ctx=B._context)
-                s.set("timeout", 20000)
+                s.set("timeout", int(_paths.scaled(20000)))
                 s.add(B.convert(e) != B.convert(r))
                 res = s.check()
                 if res == z3.unsat:
@@ -269,7 +273,7 @@ def ob_burrow_sizes(tier="quick"):
         n += 1
         burrowed += r.op != "If"
         s = z3.Solver(ctx=B._context)
-        s.set("timeout", 20000)
+        s.set("timeout", int(_paths.scaled(20000)))
         s.add(B.convert(e) != B.convert(r))
         res = s.check()
         if res == z3.unknown:
